@@ -50,12 +50,13 @@ def h_unit(ctx, mods, shape):
     t = None if shape.get('t') == 'none' else ctx.real('t', 0, 60)
     tr = UT.find_adb(default_transport_timeout_s=default)
     ctx.check(tr._device is adb, 'find_adb picks the device that has the ADB interface (class 0xFF, subclass 0x42, protocol 0x01)')
-    inbox = ctx.bytes('in', 4)
-    state = {'pos': 0, 'out': SymBytes(), 'ms': []}
+    NIN = shape.get('inbox', 4)
+    inbox = ctx.bytes('in', NIN) if NIN <= 16 else __import__('sx.harness.common', fromlist=['sym_content']).sym_content(ctx, 'in', NIN, [0, 1, NIN // 2, NIN - 1])
+    state = {'pos': 0, 'out': SymBytes(), 'ms': [], 'last_k': 0}
 
     def peer_read(ep, n, ms):
         state['ms'].append(('r', ep, n, ms))
-        avail = 4 - state['pos']
+        avail = NIN - state['pos']
         if avail <= 0:
             raise u.USBErrorTimeout(-7)
         m = min(n, avail)
@@ -65,9 +66,13 @@ def h_unit(ctx, mods, shape):
         return bytearray(r.base) if not r.ov else core.SymByteArray(r.base, r.ov)
 
     def peer_write(ep, data, ms):
+        k = len(data)
+        if shape.get('short_out') and len(data) > 1:
+            k = 1 + ctx.choose(len(data), 'bytes the OUT transfer accepted')
         state['ms'].append(('w', ep, len(data), ms))
-        state['out'] = state['out'] + as_sym(data)
-        return len(data)
+        state['out'] = state['out'] + as_sym(data)[:k]
+        state['last_k'] = k
+        return k
 
     adb.peer_read, adb.peer_write = peer_read, peer_write
     if shape.get('fault') is not None:
@@ -95,11 +100,11 @@ def h_unit(ctx, mods, shape):
                 if closed:
                     ctx.fail('bulk_write on a closed transport did not raise UsbWriteFailedError')
                     continue
-                sent = sent + as_sym(data)
                 last = state['ms'][-1]
+                sent = sent + as_sym(data)[:state['last_k']]
                 ctx.check(last[0] == 'w' and last[1] == OUT_EP, 'writes go to the OUT endpoint', detail=hex(last[1]))
                 ctx.check(last[3] == want_ms, 'the timeout is passed to libusb in milliseconds (the default when none is given)')
-                ctx.check(r == 3, 'bulk_write returns the number of bytes transferred')
+                ctx.check(r == state['last_k'], 'bulk_write returns the number of bytes libusb transferred', detail='%r vs %r' % (r, state['last_k']))
             elif step.startswith('read'):
                 n = int(step[4:] or 4)
                 r = tr.bulk_read(n, t)
@@ -122,7 +127,7 @@ def h_unit(ctx, mods, shape):
                     ctx.check(h.closed or u.STATE.fault_at is not None, 'close() closes the libusb handle')
         except exc.UsbReadFailedError as e:
             ctx.observe(step, 'UsbReadFailedError')
-            ok = step.startswith('read') and (closed or closed is None or u.STATE.fault_at is not None or state['pos'] >= 4)
+            ok = step.startswith('read') and (closed or closed is None or u.STATE.fault_at is not None or state['pos'] >= NIN)
             ctx.check(ok, 'UsbReadFailedError only from a read that libusb failed or on a closed transport', detail=step)
         except exc.UsbWriteFailedError as e:
             ctx.observe(step, 'UsbWriteFailedError')
@@ -159,15 +164,23 @@ def h_session(ctx, mods, shape):
         if not dev.pending():
             clock.advance(Fraction(ms, 1000) if not isinstance(ms, SymInt) else ms / 1000)
             raise u.USBErrorTimeout(-7)
-        k = min(n, dev.pending())
+        # a libusb IN transfer returns whatever is queued, up to the requested length (it may span ADB packets)
+        k = min(n, len(dev.wire))
         r = dev.take(k)
         return bytearray(r.base) if not r.ov else core.SymByteArray(r.base, r.ov)
 
+    budget = {'n': shape.get('nshort', 0)}
+
     def peer_write(ep, data, ms):
-        dev.host_wrote(as_sym(data))
-        return len(data)
+        k = len(data)
+        if budget['n'] > 0 and len(data) > 1 and ctx.choose(2, 'short OUT transfer?'):
+            budget['n'] -= 1
+            k = len(data) // 2
+        dev.host_wrote(as_sym(data)[:k])
+        return k
 
     adb.peer_read, adb.peer_write = peer_read, peer_write
+    dev.eager = bool(shape.get('eager'))
     w = World(ctx, mods, dev, impl='sync', clock=clock, default_timeout=1)
     kw = {}
     if shape.get('by') == 'serial':
@@ -223,6 +236,10 @@ def shapes(tier, seed):
     for f in range(0, 12):
         for kind in (0, 1):
             out.append({'h': 'unit', 'variant': 'usb', 'steps': ['connect', 'write', 'read2', 'close', 'write', 'read4', 'close', 'connect', 'write', 'close'], 't': 'sym', 'default': 'none', 'fault': f, 'fault_kind': kind})
+    out.append({'h': 'unit', 'variant': 'usb', 'steps': ['connect', 'write', 'write', 'read2', 'close'], 't': 'sym', 'default': 'sym', 'short_out': True})
+    out.append({'h': 'unit', 'variant': 'usb', 'steps': ['connect', 'read1500', 'read1025', 'read300', 'close'], 't': 'sym', 'default': 'sym', 'inbox': 4000})
+    out.append({'h': 'session', 'variant': 'usb', 'by': None, 'ops': [['shell', {'lens': [1500, 3]}], 'stat'], 'eager': True})
+    out.append({'h': 'session', 'variant': 'usb', 'by': None, 'ops': ['shell', ['push', {'size': 3000}]], 'nshort': 1})
     for by in (None, 'serial', 'port'):
         out.append({'h': 'session', 'variant': 'usb', 'by': by, 'ops': ['shell', 'stat', ['pull', {}], ['push', {'size': 5000}]], 'others': 1 if tier == 'quick' else 2})
     return out
